@@ -644,21 +644,76 @@ def _p_r2band():
             ('stats_inpainted', '(v t : Rat)', 'Bool', '(decide (v < t))', 'ParamStats: array < r2_inpaint_thresh')]
 
 
+def _f_prog():
+    """fuse.py _process_block + raster_pair.py read: the per-block program of lock and dataset operations, in order"""
+    from homonim.fuse import RasterFuse
+    from homonim.raster_pair import RasterPairReader
+    LOCKS = {'self._src_lock': 'S', 'self._ref_lock': 'R', 'self._corr_lock': 'C', 'self._param_lock': 'P'}
+    DATASETS = {'self._src_im': 'S', 'self._ref_im': 'R', 'corr_im': 'C', 'param_im': 'P'}
+    read_fn = fn_body(src_of(RasterPairReader.read))
+    blk_fn = fn_body(src_of(RasterFuse._process_block))
+
+    def calls_in(node):
+        cs = [n for n in ast.walk(node) if isinstance(n, ast.Call)]
+        cs.sort(key=lambda n: (n.lineno, n.col_offset))
+        return cs
+
+    def emit(stmts, out, param_out):
+        for st in stmts:
+            if isinstance(st, ast.Expr) and isinstance(st.value, ast.Constant):
+                continue  # docstring
+            if isinstance(st, ast.With):
+                if len(st.items) != 1 or U(st.items[0].context_expr) not in LOCKS:
+                    raise TranslationError(f'unexpected `with {U(st.items[0].context_expr)}`')
+                lk = LOCKS[U(st.items[0].context_expr)]
+                out.append(f'.acq .{lk}')
+                emit(st.body, out, param_out)
+                out.append(f'.rel .{lk}')
+                continue
+            if isinstance(st, ast.If):
+                if U(st.test) != 'param_im' or st.orelse:
+                    raise TranslationError(f'unexpected branch `if {U(st.test)}`')
+                emit(st.body, param_out, param_out)
+                continue
+            if isinstance(st, ast.Return):
+                continue
+            for c in calls_in(st):
+                f = U(c.func)
+                if f == 'self.read':
+                    emit(read_fn.body, out, param_out)
+                elif f in ('model.fit', 'model.apply'):
+                    out.append('.compute')
+                elif f.endswith('from_rio_dataset') or f.endswith('to_rio_dataset'):
+                    ds = U(c.args[0])
+                    if ds not in DATASETS:
+                        raise TranslationError(f'dataset access through `{ds}`')
+                    out.append(f'.io .{DATASETS[ds]}')
+                elif f in ('self._assert_open', 'np.arange', 'len'):
+                    pass
+                else:
+                    raise TranslationError(f'unexpected call `{U(c)}` in the block program')
+
+    base, par = [], []
+    emit(blk_fn.body, base, par)
+    return [('progBase', '', 'List Instr', '[' + ', '.join(base) + ']', '_process_block (with read inlined): lock / dataset / compute steps'),
+            ('progParam', '', 'List Instr', '[' + ', '.join(par) + ']', '_process_block: the steps under `if param_im:`')]
+
+
 # one extractor per source function: a failure in one leaves the others (and the properties they serve) alone
 SECTIONS = [_k_fit_gain, _k_fit_gain_offset, _k_r2, _k_blk, _s_cmp, _s_cmp_mean, _s_stats, _g_blocks, _g_resolve, _g_auto,
-            _g_overlap, _g_expand, _g_round, _g_covers, _g_pindex, _s_cmp_block, _m_cover, _a_bounded, _p_r2band]
+            _g_overlap, _g_expand, _g_round, _g_covers, _g_pindex, _s_cmp_block, _m_cover, _a_bounded, _p_r2band, _f_prog]
 # definition-name prefixes each extractor is responsible for (used to attribute a failed extraction to properties)
 PROVIDES = {'_k_fit_gain': ('fitGain_',), '_k_fit_gain_offset': ('fitGainOffset_',), '_k_r2': ('r2_',),
             '_k_blk': ('blk_', 'blockNorm_', 'applyParams'), '_s_cmp': ('cmp_',), '_s_cmp_mean': ('cmp_meanRow',),
             '_s_stats': ('stats_',), '_g_blocks': ('blocks_',), '_g_resolve': ('resolveAutoIsRef',), '_g_auto': ('autoBlock_',),
             '_g_overlap': ('overlapForKernel',), '_g_expand': ('expandWindow_',), '_g_round': ('roundBounds_',),
             '_g_covers': ('covers_axis',), '_g_pindex': ('paramIndex',), '_s_cmp_block': ('cmpPx_',), '_m_cover': ('cover_',),
-            '_a_bounded': ('bounded_',), '_p_r2band': ('stats_isR2Band', 'stats_inpainted')}
+            '_a_bounded': ('bounded_',), '_p_r2band': ('stats_isR2Band', 'stats_inpainted'), '_f_prog': ('prog',)}
 # which generated definitions (by name prefix) bear on which property's check
 SERVES = {
     'C01': ('fitGain', 'r2_', 'blk_', 'blockNorm_'), 'C02': ('fitGain', 'r2_', 'blk_', 'blockNorm_', 'applyParams'),
     'C07': ('fitGain', 'r2_', 'blk_', 'blockNorm_', 'applyParams'), 'C14': ('applyParams', 'paramIndex'),
-    'C11': ('cmp_', 'cmpPx_'), 'C12': ('stats_',), 'C17': ('cover_',), 'C20': ('bounded_',), 'C05': ('overlapForKernel', 'blocks_'),
+    'C04': ('prog',), 'C09': ('prog',), 'C11': ('cmp_', 'cmpPx_'), 'C12': ('stats_',), 'C17': ('cover_',), 'C20': ('bounded_',), 'C05': ('overlapForKernel', 'blocks_'),
     'C06': ('blocks_', 'expandWindow_', 'roundBounds_', 'autoBlock_'), 'C16': ('covers_axis',), 'C18': ('resolveAutoIsRef',),
 }
 # theorems outside Props/Cxx.lean audited with a property's proof leg: (module, theorem name prefix) - the source-text tie
@@ -672,6 +727,7 @@ TIE = {
     'C11': [('SrcTieStats', 'src_C11_')], 'C12': [('SrcTieStats', 'src_C12_')], 'C05': [('SrcTieGeom', 'src_C05_'), ('SrcTieGeom', 'src_C06_block'), ('E2E', 'block_transparent'), ('E2E', 'partitions_agree')],
     'C06': [('SrcTieGeom', 'src_C06_')], 'C16': [('SrcTieGeom', 'src_C16_')], 'C18': [('SrcTieGeom', 'src_C18_')],
     'C17': [('SrcTieGeom', 'src_C17_')], 'C20': [('SrcTieGeom', 'src_C20_')],
+    'C04': [('SrcTieSched', 'src_C04_')], 'C09': [('SrcTieSched', 'src_C04_')],
 }
 
 
@@ -679,7 +735,7 @@ def generate():
     """(text of GeneratedCode.lean, {extractor name: error text} for the source functions that could not be translated)"""
     lines = ['/-', '  GENERATED by harness/py2lean.py from the source text of the homonim package - do not edit.',
              '  Each definition is the closed form of what the named statement of the code evaluates (see py2lean.py).', '-/',
-             'namespace Homonim.Src', '']
+             'import Homonim.Model.Sched', 'namespace Homonim.Src', 'open Homonim', '']
     errors = {}
     for fn in SECTIONS:
         try:
@@ -692,7 +748,7 @@ def generate():
         for name, params, typ, body, doc in defs:
             lines.append(f'/-- {doc} -/'.replace('-/ -/', '-/'))
             extra = ' (sqrt : Rat → Rat)' if 'sqrt ' in body else ''
-            lines.append(f'def {name} {params}{extra} : {typ} := {body}')
+            lines.append(f'def {name} {params}{extra} : {typ} := {body}'.replace('  :', ' :'))
             lines.append('')
     lines.append('end Homonim.Src')
     return '\n'.join(lines) + '\n', errors
